@@ -33,7 +33,8 @@ class SizeRule(sym.Rule):
         #  destroys on the path: frozenset (a, b),
         #  pending decreases: frozenset (obj, newEND, oldEND, desc),
         #  objects whose pointer was rewritten)
-        return (frozenset(), frozenset(), frozenset(), frozenset(), frozenset(), frozenset(), frozenset())
+        #  ..., a size store whose verdict waits for the end of the straight-line run of word stores)
+        return (frozenset(), frozenset(), frozenset(), frozenset(), frozenset(), frozenset(), frozenset(), None)
 
     def cells(self, obj, eng):
         pa = sa = None
@@ -62,7 +63,32 @@ class SizeRule(sym.Rule):
         s = eng.load(st, sa)
         return d, s, lin_add(d, lin_scale(s, self.s))
 
+    def flush(self, rs, f, eng):
+        """Judge the size store that was waiting (see on_event)."""
+        cons, dest, dec, reptr, newbuf, allocs, freed, pend = rs
+        if pend is None:
+            return rs
+        obj, data, old, new, desc = pend
+        r4 = self.size_change((cons, dest, dec, reptr), obj, data, old, new, desc, f, eng)
+        return r4 + (newbuf, allocs, freed, None)
+
     def on_event(self, rs, ev, st, f, eng):
+        pend = rs[7]
+        if pend is not None:
+            # A size store is judged against the buffer the container holds when the run of plain word
+            # stores it belongs to ends (the next call, loop re-entry, size store or exit): the three
+            # words of a buffer replacement may be written in any order, and until something can observe
+            # or throw, the intermediate combinations do not exist for anybody.
+            if ev.kind == 'store' and ev.field == 0 and obj_of(ev.addr) == pend[0]:
+                cons, dest, dec, reptr, newbuf, allocs, freed, _ = rs
+                return (frozenset(), dest, dec, reptr | {pend[0]}, newbuf, allocs, freed, None)
+            if ev.kind in ('call', 'throw', 'havoc') or (ev.kind == 'store' and ev.field == 2):
+                rs = self.flush(rs, f, eng)
+        cons, dest, dec, reptr, newbuf, allocs, freed, pend = rs
+        rs7 = self.on_event7((cons, dest, dec, reptr, newbuf, allocs, freed), ev, st, f, eng, pend)
+        return rs7 if len(rs7) == 8 else rs7 + (pend,)
+
+    def on_event7(self, rs, ev, st, f, eng, pend):
         cons, dest, dec, reptr, newbuf, allocs, freed = rs
         if ev.kind == 'store' and ev.field == 0:
             return (cons, dest, dec, reptr | {obj_of(ev.addr)}, newbuf, allocs, freed)
@@ -79,8 +105,7 @@ class SizeRule(sym.Rule):
                 return rs
             old = ev.old
             data = eng.load(st, pa)
-            r4 = self.size_change((cons, dest, dec, reptr), obj, data, old, ev.val, ev, st, f, eng)
-            return r4 + (newbuf, allocs, freed)
+            return (cons, dest, dec, reptr, newbuf, allocs, freed, (obj, data, old, ev.val, where(ev, self.orc)))
         if ev.kind in ('call', 'throw') and ev.callee and ev.args is not None:
             name = ev.callee
             eff = self.orc.effects.get(name, frozenset())
@@ -143,7 +168,7 @@ class SizeRule(sym.Rule):
             return (cons, dest, dec, reptr, newbuf, allocs, freed)
         return rs
 
-    def size_change(self, rs, obj, data, old, new, ev, st, f, eng):
+    def size_change(self, rs, obj, data, old, new, desc, f, eng):
         cons, dest, dec, reptr = rs
         bn = base_name(f.pretty)
         self.updates += 1
@@ -158,7 +183,6 @@ class SizeRule(sym.Rule):
             return (cons, dest, dec, reptr)
         neg = (d[1] <= 0 and all(c < 0 for a, c in d[2]) and (d[1] < 0 or d[2])) or const_of(new) == 0
         pos = d[1] >= 0 and all(c > 0 for a, c in d[2])
-        desc = where(ev, self.orc)
         if neg:
             return (frozenset(), dest, dec | {(obj, new_end, old_end, desc)}, reptr)
         # increase (or unknown direction): a construction starting at the old end must precede
@@ -168,7 +192,7 @@ class SizeRule(sym.Rule):
             exact = [c for c in starts if c[1] is not None and c[1] == new_end]
             known = [c for c in starts if c[1] is not None and not any(a[0] == 'ret' for a in sym.atoms_of(c[1]))]
             if known and not exact and pos:
-                self._rep(f, 'size advanced by a different amount than was constructed', ev,
+                self._rep(f, 'size advanced by a different amount than was constructed', desc,
                           {'constructed_to': repr(known[0][1])[:200], 'new_end': repr(new_end)[:200]})
             else:
                 if not exact:
@@ -176,7 +200,7 @@ class SizeRule(sym.Rule):
                 self._ok(f, 'increase')
             return (frozenset(), dest, dec, reptr)
         if pos:
-            self._rep(f, 'size advanced over storage in which nothing was constructed', ev,
+            self._rep(f, 'size advanced over storage in which nothing was constructed', desc,
                       {'old_end': repr(old_end)[:200], 'constructs': [c[2] for c in cons][:4]})
             return (frozenset(), dest, dec, reptr)
         # direction unknown (sizes exchanged): either a construction at the old end or a
@@ -188,15 +212,15 @@ class SizeRule(sym.Rule):
         if dk not in self.reports:
             self.reports[dk] = Report('R06.3', True, None, sample={'function': base_name(f.pretty), 'update': what, 'config': self.cfg.name})
 
-    def _rep(self, f, what, ev, detail=None):
+    def _rep(self, f, what, at, detail=None):
         bn = base_name(f.pretty)
-        dk = (f.name, what, where(ev, self.orc) if ev is not None else '')
+        dk = (f.name, what, at or '')
         if dk in self.reports:
             return
         d = {'function': f.pretty[:300], 'config': self.cfg.name, 'file': 'source/include/gch/small_vector.hpp'}
         d.update(detail or {})
         self.reports[dk] = Report('R06.3', False, {'function': bn, 'defect': what},
-                                  'R06.3: %s: %s (at %s) (%s)' % (bn, what, where(ev, self.orc) if ev is not None else 'exit', self.cfg.name), d)
+                                  'R06.3: %s: %s (at %s) (%s)' % (bn, what, at or 'exit', self.cfg.name), d)
 
     def nonneg(self, t, eng=None):
         if t[1] < 0:
@@ -213,7 +237,7 @@ class SizeRule(sym.Rule):
         return False
 
     def on_exit(self, rs, kind, st, f, eng, rv=None):
-        cons, dest, dec, reptr, newbuf, allocs, freed = rs
+        cons, dest, dec, reptr, newbuf, allocs, freed, _ = self.flush(rs, f, eng)
         if kind not in ('ret', 'unwind'):
             return
         if kind == 'unwind':
